@@ -1,7 +1,7 @@
 """C12 — A copy is equivalent to its original and shares nothing with it."""
 from contracts import misc_small  # noqa
 from contracts import c12_rxn_arith as ARITH
-from contracts import w_model_small as WMS
+from contracts import w_tolerance as WT
 from props._generic import run_property, replay_with_driver
 
 LEVEL = "other"
@@ -9,7 +9,7 @@ KEYS = ["Reaction.copy", "Model.__setstate__", "Reaction.update_variable_bounds"
 
 
 def run(rep):
-    run_property(rep, KEYS, more=list(ARITH.GROUPS) + [(["Model.tolerance@setter"], WMS.HOOKS)], lemmas=ARITH.lemmas, explanation=(
+    run_property(rep, KEYS, more=list(ARITH.GROUPS) + [(WT.KEYS, WT.HOOKS)], lemmas=ARITH.lemmas, explanation=(
         "The Model.tolerance setter (an assumed contract until round 5) is proved against its body: every optlang tolerance "
         "(feasibility, optimality, integrality) the interface supports is set to the value on the tolerances object of this "
         "model's solver configuration, an unsupported one is left alone (AttributeError swallowed), self._tolerance is set on every "
